@@ -32,10 +32,22 @@ LIMIT = 8.0  # seconds per request on the real parser
 # watchdog around the real library
 
 
+def needs_confirmation(req):
+    """time-outs are taken at face value only for texts that have the shape of an unbounded
+    computation (a power of numbers, a huge float exponent); decided from the text alone"""
+    k = req.get("k")
+    if k == "str":
+        return hang_shape(req["s"]) == "other"
+    if k == "bytes":
+        return hang_shape(bytes(req["b"]).decode("utf-8", "replace")) == "other"
+    return True
+
+
 class Real:
     def __init__(self):
         self.p = None
         self.restarts = 0
+        self.slow = 0
 
     def start(self):
         env = dict(os.environ, UNYT_REPO=core.REPO, PYTHONHASHSEED="0")
@@ -43,6 +55,20 @@ class Real:
                                   stdin=subprocess.PIPE, stdout=subprocess.PIPE, stderr=subprocess.DEVNULL,
                                   env=env, bufsize=0)
         self.buf = b""
+
+    def single(self, req, limit):
+        """one request alone in a fresh child"""
+        self.start()
+        try:
+            self.p.stdin.write((json.dumps(req) + "\n").encode("utf-8"))
+            self.p.stdin.flush()
+            line = self._readline(limit)
+        except Exception:  # noqa: BLE001
+            line = None
+        if not line:
+            self.stop()
+            return {"r": "hang"}
+        return json.loads(line)
 
     def stop(self):
         if self.p is not None:
@@ -98,13 +124,19 @@ class Real:
             th = threading.Thread(target=feed, daemon=True)
             th.start()
             done = 0
-            for _ in part:
+            for req in part:
                 line = self._readline(LIMIT if done else LIMIT + 20.0)  # first reply also pays the import
                 if line is None:
-                    out.append({"r": "hang"})
-                    done += 1
                     self.stop()
                     self.restarts += 1
+                    # a time-out on an input that has no unbounded-number shape is confirmed once, alone,
+                    # in a fresh process with a generous limit (a loaded machine must not look like a hang)
+                    if needs_confirmation(req):
+                        out.append(self.single(req, 45.0))
+                        self.slow += 1 if out[-1].get("r") != "hang" else 0
+                    else:
+                        out.append({"r": "hang"})
+                    done += 1
                     break
                 if line == b"":
                     out.append({"r": "died"})
@@ -803,6 +835,7 @@ def run(tier, seed):
         for o, d, _c in chk.disagreements:
             print("DISAGREE", o, d[:400], file=sys.stderr)
     chk.extra["worker_restarts"] = sum(r.restarts for r in reals)
+    chk.extra["slow_replies_confirmed_not_hanging"] = sum(r.slow for r in reals)
     rule = ("strings: fixed probe list + every atomic symbol + grammar-generated valid expressions (all names, nested products/quotients/powers, "
             "coefficients, spellings of numbers) + char/token/byte mutations of them + malformed streams, each evaluated on the real parser under a "
             f"{LIMIT:g} s watchdog and on the compiled model; units built by random unit arithmetic (printed, re-parsed, compared with the model's "
